@@ -256,6 +256,13 @@ def run(out, seed, n, mode):
     for it in range(n):
         W = worlds[(it // 7) % 2]
         import sys as _sys
+        if it % 6 == 2:
+            # the peer named these classes once before their module was available here (the load failed, as it must):
+            # what happened to an earlier message does not decide what a name means now
+            _sys.modules.pop(classgen.MOD, None)
+            for cname in [n_ for n_ in dir(W.mod) if isinstance(getattr(W.mod, n_), type)]:
+                call(lambda: jsonclass.load({"__jsonclass__": ["%s.%s" % (classgen.MOD, cname), []]}))
+                call(lambda: jsonclass.load({"__jsonclass__": ["%s.%s" % (classgen.MOD, cname), []]}, config=W.config))
         _sys.modules[classgen.MOD] = W.mod
         config = W.config.copy()
         config.classes = W.config.classes
@@ -376,7 +383,17 @@ def record_rpc(W, rnd, config, beans):
         def request(self, host, handler, body, verbose=0):
             return disp._marshaled_dispatch(body)
     rec = {"mode": "rpc", "CT": W.CT, "cfg": {"H": [], "ign": []}, "orig": W.enc(orig)}
-    res = call(lambda: jsonrpc.ServerProxy("http://loop/", transport=T(""), version=ver, config=config).echo(orig))
+    if rnd.random() < 0.4:
+        # a proxy speaking the other version than its configuration, built BEFORE the local classes are registered in
+        # that (shared, mutable) configuration
+        ccfg = config.copy()
+        ccfg.classes = type(jsonrpclib.config.Config().classes)()
+        ccfg.version = 1.0 if ver == 2.0 else 2.0
+        proxy = jsonrpc.ServerProxy("http://loop/", transport=T(""), version=ver, config=ccfg)
+        ccfg.classes.update(config.classes)
+    else:
+        proxy = jsonrpc.ServerProxy("http://loop/", transport=T(""), version=ver, config=config)
+    res = call(lambda: proxy.echo(orig))
     if kind != "dispatcher":
         try:
             disp.server_close()
